@@ -173,7 +173,7 @@ func oracle(p *progSpec, o *obsT, res *okT, er *errT) []hk.Failure {
 				}
 			}
 		}
-		clean := p.ReqErr == 0 && !p.OddForm && sp.Bi == 0
+		clean := p.ReqErr == 0 && !p.OddForm && sp.Bi == 0 && !(p.Unreplayable && p.Retry && p.Max != 0)
 		for _, u := range sp.Ud {
 			if u != 0 {
 				clean = false
@@ -215,8 +215,8 @@ func oracle(p *progSpec, o *obsT, res *okT, er *errT) []hk.Failure {
 	} else if resent {
 		finalT = toutSpec{Status: 200}
 	}
-	um := refUnmarshalFails(finalT.B)
-	if !o.Panic && !stale && p.ReqErr == 0 {
+	um := p.refUnmarshalFails(finalT.B)
+	if !o.Panic && !stale && p.ReqErr == 0 && !(p.Unreplayable && p.Retry && p.Max != 0) {
 		if o.Present && finalT.Fail == 0 && o.Status != finalT.Status {
 			fail("status", "response status differs from what the origin sent", o.Status, finalT.Status)
 		}
@@ -271,6 +271,11 @@ func oracle(p *progSpec, o *obsT, res *okT, er *errT) []hk.Failure {
 	catcher := false
 	if p.ReqErr != 0 {
 		must = append(must, p.ReqErr)
+	} else if p.Unreplayable && p.Retry && p.Max != 0 {
+		must = append(must, eUnreplayable)
+		if len(o.Log) > 0 && o.Log[0].Kind != "onerror" {
+			fail("unreplayable-sent", "a retryable request with an unreplayable body was processed instead of being refused", o.Log, nil)
+		}
 	} else {
 		udClean := true
 		for i := 0; i < nUd; i++ {
@@ -312,11 +317,11 @@ func oracle(p *progSpec, o *obsT, res *okT, er *errT) []hk.Failure {
 				case "drop":
 					catcher = true
 				case "nil":
-					// (resp, nil): an inner error stays visible in resp.Err - unless the inner
-					// round-tripper handed back no response to carry it
+					// (resp, nil): an error Client.roundTrip recorded stays visible in resp.Err; an
+					// error an inner wrapper only returned (or a response it dropped) is gone
 					for j := 0; j < i; j++ {
 						wj := at.Wraps[j]
-						if has(o.Log, la, "win", j) && ((wj.Kind == "short" && wj.NilResp) || (wj.Kind == "post" && (wj.Ret == "drop" || wj.Ret == "droperr"))) {
+						if has(o.Log, la, "win", j) && (wj.Kind == "short" || (wj.Kind == "post" && wj.Ret != "keep" && wj.Ret != "nil")) {
 							catcher = true
 						}
 					}
@@ -346,10 +351,14 @@ func oracle(p *progSpec, o *obsT, res *okT, er *errT) []hk.Failure {
 				return
 			}
 			st := docState(p, t.Status)
-			u := refUnmarshalFails(t.B)
+			u := p.refUnmarshalFails(t.B)
 			if t.Status != 204 {
 				if (st == 0 && p.TResult && u[0]) || (st == 1 && p.TError && u[1]) || (st == 1 && !p.TError && p.TCommon && u[2]) {
-					add(eUnmarshal)
+					if p.UmCustom && t.B.UmErr != 0 {
+						add(t.B.UmErr)
+					} else {
+						add(eUnmarshal)
+					}
 				}
 			}
 		}
@@ -385,7 +394,7 @@ func oracle(p *progSpec, o *obsT, res *okT, er *errT) []hk.Failure {
 		_ = dlevel
 		if stale { // the response (and its Err) of the previous attempt is what the caller holds
 			pa := p.Attempts[la-1]
-			may = append(may, pa.T.Fail, pa.T.B.ReadErr, eUnmarshal, pa.GetBody)
+			may = append(may, pa.T.Fail, pa.T.B.ReadErr, pa.T.B.UmErr, eUnmarshal, pa.GetBody)
 			for _, m := range append(append([]mwSpec{}, pa.Cli...), pa.Req...) {
 				may = append(may, m.Set, m.Ret)
 			}
